@@ -60,6 +60,8 @@ func casesScore(c *caseCtx) {
 			c.emit("less %s %s => %s", sstr(a), sstr(b), b01(a.Less(b)))
 			c.emit("negrev %s %s => %s %s", sstr(a), sstr(b), b01(a.Less(b)), b01(b.Negate().Less(a.Negate())))
 			c.emit("incmono %s %s => %s %s", sstr(a), sstr(b), b01(a.Less(b)), b01(eval.IncrementMateDistance(a).Less(eval.IncrementMateDistance(b))))
+			c.emit("max %s %s => %s", sstr(a), sstr(b), sstr(eval.Max(a, b)))
+			c.emit("min %s %s => %s", sstr(a), sstr(b), sstr(eval.Min(a, b)))
 		}
 	}
 	// (2) seeded random scores.
